@@ -270,6 +270,14 @@ func (mi *MessageInfo) unmarshalPointerLazy(b []byte, p pointer, groupTag protow
 				case lazyFields == nil || lazyFields[f] == lazyValidateOnly:
 					// Attempt to validate this field and leave it for later lazy unmarshaling.
 					o, valid := mi.skipField(b, f, wtyp, opts)
+					if valid == ValidationValid && !o.initialized && opts.flags&piface.UnmarshalCheckRequired != 0 {
+						// The field is well-formed but lacks required fields, and the
+						// caller did not allow partial messages. CheckInitialized trusts
+						// that a field left lazy was checked here, so decode this one
+						// (like a field that could not be validated) and let the
+						// initialization check that follows Unmarshal report it.
+						valid = ValidationUnknown
+					}
 					switch valid {
 					case ValidationValid:
 						// Skip over the valid field and continue.
